@@ -272,7 +272,9 @@ def lr_verdict(desc):
         out.close("lr/CM", pr.get_val("aero_point_0.CM"), pl.get_val("aero_point_0.CM"), rtol=1e-9, atol=1e-12)
         Fl = pl.get_val("aero_point_0.aero_states.wing_sec_forces")
         Fr = pr.get_val("aero_point_0.aero_states.wing_sec_forces")
-        out.close("lr/sec_forces", Fr[:, ::-1, :] * R, Fl, rtol=1e-9)
+        # (a non-lifting case has sectional forces that are round-off of the O(q S) panel terms: never judged finer than that)
+        qS = 0.5 * float(pl.get_val("rho")[0]) * float(pl.get_val("v")[0]) ** 2 * float(pl.get_val("aero_point_0.wing.S_ref")[0])
+        out.close("lr/sec_forces", Fr[:, ::-1, :] * R, Fl, rtol=1e-9, scale=max(float(np.max(np.abs(Fl))), 1e-6 * qS))
         # ... and so must the sensitivities: d(CL, CD)/d(control points) of the right half are those of the left half with
         # the control points in reverse order (y-shear: opposite sign); two live models of equal size in one process
         of = ["aero_point_0.CL", "aero_point_0.CD"]
@@ -348,7 +350,8 @@ def fs_verdict(desc):
               atol=1e-12)
     F1 = p1.get_val("aero_point_0.aero_states.wing_sec_forces")
     F2 = p2.get_val("aero_point_0.aero_states.wing_sec_forces")
-    out.close("fs/sec_forces", F2[:, ::-1, :] * R, F1, rtol=1e-9)
+    qS = 0.5 * float(p1.get_val("rho")[0]) * float(p1.get_val("v")[0]) ** 2 * float(p1.get_val("aero_point_0.wing.S_ref")[0])
+    out.close("fs/sec_forces", F2[:, ::-1, :] * R, F1, rtol=1e-9, scale=max(float(np.max(np.abs(F1))), 1e-6 * qS))
     for u in desc["use"]:
         out.label("fsdv=" + u)
     out.label("fs-kind=" + desc["mesh"]["kind"])
